@@ -50,6 +50,13 @@ pub(crate) fn any_send() -> Send {
     )
 }
 
+/// Stand-in for `Send::check_headers` on the EMPTY field section the state-machine harnesses use (the real
+/// body hashes five header names; `send_check_headers` verifies it separately): always `Ok`.
+#[cfg(kani)]
+fn stub_check_headers_empty(_fields: &http::HeaderMap) -> Result<(), UserError> {
+    Ok(())
+}
+
 #[cfg(kani)]
 mod proofs {
     use super::*;
@@ -153,6 +160,7 @@ mod proofs {
     // @harness id=send_send_headers props=C04,C05,C06,C13,C08 kind=complete tier=quick fn=Send::send_headers timeout=600
     #[kani::proof]
     #[kani::unwind(3)]
+    #[kani::stub(crate::proto::streams::send::Send::check_headers, stub_check_headers_empty)]
     fn send_send_headers() {
         let peer = any_peer();
         let local: bool = kani::any();
@@ -208,6 +216,7 @@ mod proofs {
     // @harness id=send_send_trailers props=C04,C16,C01,C08 kind=complete tier=quick fn=Send::send_trailers timeout=600
     #[kani::proof]
     #[kani::unwind(3)]
+    #[kani::stub(crate::proto::streams::send::Send::check_headers, stub_check_headers_empty)]
     fn send_send_trailers() {
         let (mut store, key, mut s) = world(any_state_light(), 1);
         let mut counts = any_counts(any_peer());
@@ -318,7 +327,7 @@ mod proofs {
 
     // send_reset on a stream whose opening HEADERS are still queued (waiting for a concurrency slot):
     // the HEADERS stay in front, the RST_STREAM is queued right behind them (never RST on an idle stream).
-    // @harness id=send_send_reset_pending_open props=C17,C04,C08 kind=complete tier=quick fn=Send::send_reset timeout=900
+    // @harness id=send_send_reset_pending_open props=C17,C04,C08 kind=complete tier=thorough fn=Send::send_reset timeout=3000
     #[kani::proof]
     #[kani::unwind(3)]
     fn send_send_reset_pending_open() {
@@ -329,7 +338,9 @@ mod proofs {
             let st = peek_mut(&mut store, key).unwrap();
             kani::assume(wf_send(st));
             st.is_pending_push = false;
-            st.pending_send.push_back(&mut buffer, mk_headers(StreamId::from(1), false, false).into());
+            // the queued opening frame: send_reset never looks at frame kinds, so a DATA frame with a marker
+            // length stands in for the HEADERS frame (a real `Headers` value costs CBMC gigabytes)
+            st.pending_send.push_back(&mut buffer, data_frame(StreamId::from(1), 4242, false).into());
         }
         {
             let mut ptr = store.resolve(key);
@@ -346,7 +357,7 @@ mod proofs {
         assert!(cause_sig(&s1.state) == Some((0, 1, code, 0, 0)), "send.send_reset_pending_open.state_records_reset");
         assert!(s1.is_pending_open && !s1.is_pending_send, "send.send_reset_pending_open.still_waits_for_its_slot");
         let first = s1.pending_send.pop_front(&mut buffer);
-        assert!(matches!(first, Some(Frame::Headers(_))), "send.send_reset_pending_open.headers_stay_first");
+        assert!(matches!(first, Some(Frame::Data(ref d)) if d.payload().rem == 4242), "send.send_reset_pending_open.headers_stay_first");
         std::mem::forget(first);
         let second = s1.pending_send.pop_front(&mut buffer);
         assert!(matches!(second, Some(Frame::Reset(ref r)) if r.reason() == Reason::from(code)), "send.send_reset_pending_open.rst_stream_right_behind_headers");
@@ -406,11 +417,12 @@ mod proofs {
 
     // WINDOW_UPDATE overflow on a stream => that stream is reset with FLOW_CONTROL_ERROR (stream error,
     // other streams unaffected), the error is returned.
-    // @harness id=send_recv_stream_window_update_overflow props=C09,C02,C17,C08 kind=complete tier=quick fn=Send::recv_stream_window_update timeout=600
+    // @harness id=send_recv_stream_window_update_overflow props=C09,C02,C17,C08 kind=complete tier=thorough fn=Send::recv_stream_window_update timeout=3000
     #[kani::proof]
     #[kani::unwind(3)]
     fn send_recv_stream_window_update_overflow() {
-        let (mut store, key, mut s) = world(any_state_light(), 1);
+        // a stream that can still send (the only kind whose window is updated): concrete shape, symbolic sub-state
+        let (mut store, key, mut s) = world(mk_state(if kani::any() { Abs::Open { local: true, remote: kani::any() } } else { Abs::HalfClosedRemote(true) }), 1);
         let mut counts = any_counts(any_peer());
         let mut buffer: Buffer<PFrame> = Buffer::new();
         {
